@@ -8,6 +8,7 @@ functions, which it interprets itself.  Any other construct raises
 Unsupported (reported as ANALYSIS-ERROR by the rules).
 """
 import ast
+import shlex
 import json
 import os
 import re
@@ -49,7 +50,7 @@ SAFE_BUILTINS = {
 }
 SAFE_ATTR_CALLS = {
     're.escape': re.escape, 're.compile': re.compile, 're.match': re.match, 're.fullmatch': re.fullmatch, 're.search': re.search,
-    're.sub': re.sub, 'json.dumps': json.dumps,
+    're.sub': re.sub, 'json.dumps': json.dumps, 'shlex.quote': shlex.quote, 'shlex.split': shlex.split, 'shlex.join': shlex.join,
     'os.path.splitext': os.path.splitext, 'os.path.basename': os.path.basename, 'os.path.dirname': os.path.dirname,
     'os.path.join': os.path.join, 'os.path.isabs': os.path.isabs, 'os.path.normpath': os.path.normpath,
 }
@@ -82,6 +83,26 @@ class Obj:
 class Model:
     """Base class for stand-in objects a rule hands to interpreted code (stub verifiers, result collectors):
     the interpreter may read and set their attributes, subscript them and call them."""
+
+
+def pure_os(**extra):
+    """A stand-in for the os module holding only the pure path algebra (posix flavour): nothing in it touches the file system.
+    Rules add what an evaluation needs on top (exists=..., environ=...)."""
+    import posixpath
+
+    class _NS(Model):
+        pass
+    o = _NS()
+    o.path = _NS()
+    for nm in ('join', 'basename', 'dirname', 'split', 'splitext', 'isabs', 'normpath', 'relpath', 'commonprefix', 'sep'):
+        setattr(o.path, nm, getattr(posixpath, nm))
+    o.path.abspath = posixpath.normpath          # evaluations hand in absolute paths
+    o.sep = '/'
+    o.linesep = '\n'
+    for k, v in extra.items():
+        tgt = o.path if k.startswith('path_') else o
+        setattr(tgt, k[5:] if k.startswith('path_') else k, v)
+    return o
 
 
 def _is_model(o):
@@ -144,6 +165,19 @@ class Interp:
             return iter(env['#yield']) if gen else r.v
         return iter(env['#yield']) if gen else None
 
+    def _class_env(self, c, upto):
+        """names a class-level assignment may use: the class-level constants assigned before it"""
+        env = {}
+        for b in c.node.body:
+            if b is upto:
+                break
+            if isinstance(b, ast.Assign) and len(b.targets) == 1 and isinstance(b.targets[0], ast.Name):
+                try:
+                    env[b.targets[0].id] = self.expr(b.value, env, c.mod)
+                except Unsupported:
+                    pass
+        return env
+
     # --------------------------------------------------------- statements
     def block(self, stmts, env, mod):
         for s in stmts:
@@ -200,6 +234,23 @@ class Interp:
                 raise Unsupported('assertion of the interpreted function fails: %s' % ast.unparse(s.test))
         elif isinstance(s, ast.Pass):
             pass
+        elif isinstance(s, ast.With):
+            # context managers are stand-ins supplied by the rule: bound as they are, left when the block is left
+            opened = []
+            for item in s.items:
+                cm = self.expr(item.context_expr, env, mod)
+                if not (_is_model(cm) or _foreign(self, cm)):
+                    raise Unsupported('with %s' % ast.unparse(item.context_expr)[:40])
+                v = cm.__enter__() if hasattr(cm, '__enter__') else cm
+                opened.append(cm)
+                if item.optional_vars is not None:
+                    self.assign(item.optional_vars, v, env, mod)
+            try:
+                self.block(s.body, env, mod)
+            finally:
+                for cm in reversed(opened):
+                    if hasattr(cm, '__exit__'):
+                        cm.__exit__(None, None, None)
         elif isinstance(s, ast.FunctionDef):
             env[s.name] = ('#def', s, env, mod)
         elif isinstance(s, ast.Delete):
@@ -416,7 +467,7 @@ class Interp:
                             continue
                         for b in c_.node.body:
                             if isinstance(b, ast.Assign) and any(isinstance(t, ast.Name) and t.id == e.attr for t in b.targets):
-                                return self.expr(b.value, {}, c_.mod)
+                                return self.expr(b.value, self._class_env(c_, b), c_.mod)
                 if e.attr == '__class__' and o.cls is not None:
                     return ('#classof', o.cls)
                 m = self.prog.lookup_method(o.cls.qn, e.attr) if o.cls else None
@@ -428,7 +479,7 @@ class Interp:
                 c = self.prog.classes[o[1].target]
                 for b in c.node.body:
                     if isinstance(b, ast.Assign) and any(isinstance(t, ast.Name) and t.id == e.attr for t in b.targets):
-                        return self.expr(b.value, {}, c.mod)
+                        return self.expr(b.value, self._class_env(c, b), c.mod)
             for t, names in SAFE_METHODS.items():
                 if o is not None and isinstance(o, t) and e.attr in names:
                     return getattr(o, e.attr)        # a bound method of a plain value (str.format ...), used as a value
